@@ -41,20 +41,25 @@ def pton(fam, s):
         return (2, b"")
 
 
+def S(s):
+    """a str for the driver: itself (-> #hex) when Latin-1, otherwise the list of its code points"""
+    try:
+        s.encode("latin-1")
+        return s
+    except UnicodeEncodeError:
+        return [ord(ch) for ch in s]
+
+
 def tables(strings):
     t4, t6 = {}, {}
     for s in strings:
         if not isinstance(s, str):
             continue
-        try:
-            s.encode("latin-1")
-        except UnicodeEncodeError:
-            continue
         for y in {s, s.rsplit("/", 1)[0]}:
             if y not in t4:
                 t4[y] = pton(socket.AF_INET, y)
                 t6[y] = pton(socket.AF_INET6, y)
-    return ([[k, v[0], v[1]] for k, v in sorted(t4.items())], [[k, v[0], v[1]] for k, v in sorted(t6.items())])
+    return ([[S(k), v[0], v[1]] for k, v in sorted(t4.items())], [[S(k), v[0], v[1]] for k, v in sorted(t6.items())])
 
 
 # ----------------------------------------------------------------------------- independent decision (ipaddress)
@@ -66,9 +71,10 @@ def _embed(a):
 
 
 def ref_member(entries, client):
-    """membership of the client in the union of the entries, decided with the ipaddress module;
-    None when the decision is outside the reference's competence (scoped / non-ASCII text)"""
-    if not isinstance(client, str) or "%" in client or not client.isascii():
+    """membership of the client in the union of the entries, decided with the ipaddress module
+    (which, like inet_pton, accepts ASCII digits only; the mask must be ASCII [0-9]+);
+    None when the decision is outside the reference's competence (scoped addresses)"""
+    if not isinstance(client, str) or "%" in client:
         return None
     try:
         c = ipaddress.ip_address(client)
@@ -78,7 +84,7 @@ def ref_member(entries, client):
     for e in entries:
         if not isinstance(e, str):
             continue
-        if "%" in e or not e.isascii():
+        if "%" in e:
             return None
         addr, mask = e, None
         if "/" in e:
@@ -194,10 +200,51 @@ def getd_sx(g):
         return [2]
     v = g[1]
     if isinstance(v, str):
-        return [3, v]
+        return [3, S(v)]
     if isinstance(v, (list, tuple, set, dict)):
-        return [5, [e if isinstance(e, str) else 0 for e in v]] if len(v) else [4]
+        return [5, [S(e) if isinstance(e, str) else 0 for e in v]] if len(v) else [4]
     return [6] if v else [4]
+
+
+# ----------------------------------------------------------------------------- non-ASCII digits
+# decimal digits of other scripts (str.isdigit / isdecimal / int() accept them, the ASCII-only [0-9]+ and
+# inet_pton do not), and characters that isdigit accepts but int() rejects
+UDIGIT_ZERO = {"arabic-indic": 0x0660, "ext-arabic-indic": 0x06F0, "devanagari": 0x0966, "bengali": 0x09E6,
+               "thai": 0x0E50, "fullwidth": 0xFF10, "math-bold": 0x1D7CE}
+SUPERSCRIPT = {0: "\u2070", 1: "\u00b9", 2: "\u00b2", 3: "\u00b3", 4: "\u2074", 5: "\u2075", 6: "\u2076",
+               7: "\u2077", 8: "\u2078", 9: "\u2079"}
+CIRCLED = {1: "\u2460", 2: "\u2461", 3: "\u2462", 4: "\u2463", 5: "\u2464", 6: "\u2465", 7: "\u2466",
+           8: "\u2467", 9: "\u2468", 0: "\u24ea"}
+
+
+def udigit(script, d):
+    if script == "superscript":
+        return SUPERSCRIPT[d]
+    if script == "circled":
+        return CIRCLED[d]
+    return chr(UDIGIT_ZERO[script] + d)
+
+
+SCRIPTS = list(UDIGIT_ZERO) + ["superscript", "circled"]
+
+
+def udigit_variants(text):
+    """every way of writing ONE ASCII digit of the text, or ONE whole run of digits (an octet, a hex group's
+    decimal digits, the prefix length), with the digits of another script"""
+    out = []
+    runs = [(m.start(), m.end()) for m in re.finditer("[0-9]+", text)]
+    for script in SCRIPTS:
+        for (a, b) in runs:
+            out.append(text[:a] + "".join(udigit(script, int(ch)) for ch in text[a:b]) + text[b:])
+            if b - a > 1:
+                for i in (a, b - 1):
+                    out.append(text[:i] + udigit(script, int(text[i])) + text[i + 1:])
+    seen, res = set(), []
+    for x in out:
+        if x not in seen and x != text:
+            seen.add(x)
+            res.append(x)
+    return res
 
 
 class C05(Check):
@@ -326,6 +373,30 @@ class C05(Check):
             raise_ = rng.random() < 0.3
             yield self.mk("contains", "random", entries=ents, client=client, **{"raise": raise_},
                           ref=ref_member(ents, client))
+        # ---------------- non-ASCII digits in every numeric position ----------------
+        # entries that str.isdigit()/int() would read as a covering subnet, paired with clients inside it
+        ubases = [("192.168.77.0/24", ["192.168.77.129", "::ffff:192.168.77.129"]),
+                  ("192.168.77.128/25", ["192.168.77.129"]), ("10.0.0.0/8", ["10.0.0.1", "::ffff:a00:1"]),
+                  ("0.0.0.0/0", ["10.0.0.1"]), ("192.168.77.129", ["192.168.77.129"]),
+                  ("::ffff:192.168.77.0/120", ["192.168.77.129"]), ("::ffff:10.0.0.0/104", ["10.0.0.1"]),
+                  ("2001:db8::/32", ["2001:db8::1"]), ("2001:db8::1", ["2001:db8::1"]), ("::/0", ["2001:db8::1"])]
+        self.uentries = []
+        for base, cls in ubases:
+            vs = udigit_variants(base)
+            if q:
+                vs = [v for i, v in enumerate(vs) if i % 3 == 0 or "/" in base and v.rsplit("/", 1)[0] == base.rsplit("/", 1)[0]]
+            for v in vs:
+                self.uentries.append((v, cls[0]))
+                for cl in cls:
+                    for raise_ in (False, True):
+                        yield self.mk("contains", "unicode-digits", entries=[v], client=cl, **{"raise": raise_},
+                                      ref=ref_member([v], cl))
+                # with a genuine non-matching and an ill-formed neighbour
+                yield self.mk("contains", "unicode-digits", entries=["172.16.0.0/12", v, "bogus"], client=cls[0],
+                              ref=ref_member(["172.16.0.0/12", v, "bogus"], cls[0]))
+            # the client written with such digits against the ASCII entry
+            for cv in udigit_variants(cls[0])[:: (4 if q else 1)]:
+                yield self.mk("contains", "unicode-digits-client", entries=[base], client=cv, ref=ref_member([base], cv))
         # ---------------- kinds 1, 2: handlers ----------------
         member_cl, other_cl = "192.168.77.129", "10.9.9.9"
         datas = [("missing", {}), ("missing", {"net": {}}), ("missing", {"net": {"other": 1}}),
@@ -376,6 +447,16 @@ class C05(Check):
                         c = self.mk("update", "handler", key=key, entries=lst, getd=g, client=client)
                         c["ref"] = self.handler_ref(c)
                         yield c
+        # non-ASCII digits in client_address_list and under the key
+        usel = self.uentries if not q else rng.sample(self.uentries, min(60, len(self.uentries)))
+        for (v, cl) in usel:
+            for kind in ("http", "tftp", "update"):
+                for (key, lst, g) in ((False, [v], ("missing", {})), (True, [], ("val", v)),
+                                      (True, ["172.16.0.0/12"], ("val", [v, "bogus"]))):
+                    c = self.mk(kind, "unicode-digits", key=key, entries=lst, getd=g, client=cl,
+                                nores=rng.choice(["not_found", "continue"]))
+                    c["ref"] = self.handler_ref(c)
+                    yield c
         yield from self.gen_histories(tier, rng)
 
     SYSTEMS = {"sysA": ("val", ["10.1.0.0/16"]), "sysB": ("val", "192.168.77.129"), "sysC": ("missing", {}),
@@ -587,8 +668,8 @@ class C05(Check):
                 strs.extend(e for e in v if isinstance(e, str))
         t4, t6 = tables(strs)
         ref = [] if c["ref"] is None else [1 if c["ref"] else 0]
-        ents = [e if isinstance(e, str) else 0 for e in c["entries"]]
-        return [KIND[c["kind"]], c["raise"], ents, c["client"], c["key"], ACT[c["act"]],
+        ents = [S(e) if isinstance(e, str) else 0 for e in c["entries"]]
+        return [KIND[c["kind"]], c["raise"], ents, S(c["client"]), c["key"], ACT[c["act"]],
                 0 if c["nores"] == "not_found" else 1, c["template"], c["lookup"], FIND[c["find"]],
                 getd_sx(g), FS[c["fs"]], t4, t6, ref, [obs[0], obs[1]]]
 
